@@ -7,15 +7,14 @@ package queue_info
 //@ define isChild(q *QueueInfo, c common_info.QueueID) bool = exists i int :: 0 <= i && i < len(q.ChildQueues) && q.ChildQueues[i] == c
 
 // C10 (queue graph): the child list of a queue is a set of ids; adding an id keeps every other
-// member and adds nothing else. Touches nothing but q.ChildQueues.
+// member and adds nothing else (the id is appended iff it was not listed yet). Touches nothing but
+// q.ChildQueues.
 //@ func (*QueueInfo).AddChildQueue
 //@   props C10
-//@   trusted
-//@   note body calls the generic library function golang.org/x/exp/slices.Contains, which govc has no model for (external call = havoc of the whole heap); the contract is the documented meaning of Contains + append
 //@   requires q != nil
 //@   modifies q.ChildQueues
-//@   ensures [added] isChild(q, queue)
-//@   ensures [onlyAdded] forall c common_info.QueueID :: isChild(q, c) == (old(isChild(q, c)) || c == queue)
+//@   ensures [prefixKept] len(q.ChildQueues) >= old(len(q.ChildQueues)) && (forall i int :: 0 <= i && i < old(len(q.ChildQueues)) ==> q.ChildQueues[i] == old(q.ChildQueues[i]))
+//@   ensures [addedOnce] ite(old(isChild(q, queue)), len(q.ChildQueues) == old(len(q.ChildQueues)), len(q.ChildQueues) == old(len(q.ChildQueues)) + 1 && q.ChildQueues[old(len(q.ChildQueues))] == queue)
 //@ end
 
 //@ func (*QueueInfo).IsLeafQueue
